@@ -34,6 +34,10 @@ pub struct SRunSpec {
     /// "nkstream" / "nkbare": kind of the i-th item, "V" value | "D" dispose
     #[serde(default)]
     pub kinds: Vec<String>,
+    /// reader scenarios: "D" DATA in order, "O" DATA out of order (one number is skipped and stays missing), "H" a
+    /// HEARTBEAT whose first number lies beyond the missing one (releases what was held back); empty = n x "D"
+    #[serde(default)]
+    pub script: Vec<String>,
     pub sched: Vec<usize>,
 }
 
@@ -61,24 +65,74 @@ struct Shared {
 
 const CAP: usize = 16;
 
-fn producer_reader(s: Arc<Sched>, sh: Arc<Shared>, n: usize, tx: mpsc::Sender<rustdds::with_key::DataReader<VSample>>) {
+/// number of samples available to the consumer after the whole script
+pub fn script_total(script: &[String]) -> usize {
+    // (a "D" while a lower number is still missing is held back like an "O")
+    let (mut avail, mut held, mut missing) = (0, 0, false);
+    for k in script {
+        match k.as_str() {
+            "D" if !missing => avail += 1,
+            "D" | "O" => {
+                missing = true;
+                held += 1;
+            }
+            _ => {
+                avail += held;
+                held = 0;
+                missing = false;
+            }
+        }
+    }
+    avail
+}
+
+fn producer_reader(s: Arc<Sched>, sh: Arc<Shared>, script: Vec<String>, tx: mpsc::Sender<rustdds::with_key::DataReader<VSample>>) {
     let mut rig = ReaderRig::new(&[ReaderCfg { reliable: true, history_depth: None, max_samples: Some(100_000) }]);
     rig.match_writer(0, writer_guid(1), true, 24_001);
     let reader_eid = rig.slots[0].entity_id;
     tx.send(rig.slots[0].detach_datareader()).unwrap();
     sched::enter(0, s);
     let mut i = 0;
+    // next sequence number to use; `missing`: a number that was skipped and has not been declared unavailable yet
+    let (mut next_sn, mut missing, mut avail, mut held, mut hb_count) = (1i64, None::<i64>, 0usize, 0usize, 0i32);
     loop {
         sched::yp("r_inject");
         if sh.stop.load(Ordering::SeqCst) {
             break;
         }
-        if i < n {
+        if i < script.len() {
+            let kind = script[i].as_str();
             i += 1;
-            sh.inserted.store(i, Ordering::SeqCst);
-            let sn = i as i64;
-            let dg = wire::encode(&writer_prefix(1), &[Sub::Data { reader: reader_eid, writer: writer_eid(1), sn, inline_qos: None, payload: Some(wire::vsample_payload(1, sn as u32, &[1, 2, 3])), key_flag: false }]);
-            let _ = rig.inject(&dg);
+            let data = |sn: i64| wire::encode(&writer_prefix(1), &[Sub::Data { reader: reader_eid, writer: writer_eid(1), sn, inline_qos: None, payload: Some(wire::vsample_payload(1, sn as u32, &[1, 2, 3])), key_flag: false }]);
+            match kind {
+                "D" if missing.is_none() => {
+                    avail += 1;
+                    sh.inserted.store(avail, Ordering::SeqCst);
+                    let _ = rig.inject(&data(next_sn));
+                    next_sn += 1;
+                }
+                "D" | "O" => {
+                    // something is (or now goes) missing below: this sample is cached and held back
+                    if missing.is_none() {
+                        missing = Some(next_sn);
+                        next_sn += 1;
+                    }
+                    held += 1;
+                    let _ = rig.inject(&data(next_sn));
+                    next_sn += 1;
+                }
+                _ => {
+                    // HEARTBEAT: everything below `first` that was not received does not exist any more
+                    hb_count += 1;
+                    let first = missing.map(|m| m + 1).unwrap_or(1);
+                    avail += held;
+                    held = 0;
+                    missing = None;
+                    sh.inserted.store(avail, Ordering::SeqCst);
+                    let dg = wire::encode(&writer_prefix(1), &[Sub::Heartbeat { reader: reader_eid, writer: writer_eid(1), first, last: next_sn - 1, count: hb_count, final_flag: false, liveliness: false }]);
+                    let _ = rig.inject(&dg);
+                }
+            }
         }
     }
     sched::leave();
@@ -378,7 +432,8 @@ pub fn run_one(run_no: usize, spec: &SRunSpec, out: &mut Vec<Value>) -> Vec<Vec<
     let flag = Arc::new(Flag { woken: AtomicBool::new(false), count: AtomicUsize::new(0) });
     let reader = matches!(spec.scenario.as_str(), "stream" | "mio6" | "mio8" | "nkstream" | "nkbare");
     let nk = matches!(spec.scenario.as_str(), "nkstream" | "nkbare");
-    let n = if nk { spec.kinds.len() } else { spec.n };
+    let script: Vec<String> = if spec.script.is_empty() { vec!["D".to_string(); spec.n] } else { spec.script.clone() };
+    let n = if nk { spec.kinds.len() } else if reader { script_total(&script) } else { spec.n };
     let vals = spec.kinds.iter().filter(|k| k.as_str() == "V").count();
     let (h0, h1) = if nk {
         let (tx, rx) = mpsc::channel();
@@ -390,7 +445,7 @@ pub fn run_one(run_no: usize, spec: &SRunSpec, out: &mut Vec<Value>) -> Vec<Vec<
     } else if reader {
         let (tx, rx) = mpsc::channel();
         let (s0, sh0) = (s.clone(), sh.clone());
-        let h0 = std::thread::spawn(move || producer_reader(s0, sh0, n, tx));
+        let h0 = std::thread::spawn(move || producer_reader(s0, sh0, script, tx));
         let (s1, sh1, f1, sc) = (s.clone(), sh.clone(), flag.clone(), spec.scenario.clone());
         let h1 = std::thread::spawn(move || match sc.as_str() {
             "stream" => app_stream(s1, sh1, f1, rx),
@@ -521,13 +576,14 @@ pub fn main(mode: &str, opt: &HashMap<String, String>) -> i32 {
                     }
                     let kinds: Vec<String> = if sc.starts_with("nk") { (0..rng.gen_range(2..=5)).map(|_| if rng.gen_bool(0.5) { "V".to_string() } else { "D".to_string() }).collect() } else { vec![] };
                     let nn = if kinds.is_empty() { nn } else { kinds.len() };
-                    SRunSpec { scenario: sc.into(), n: nn, kinds, sched }
+                    let script: Vec<String> = if matches!(sc, "stream" | "mio6" | "mio8") && rng.gen_bool(0.5) { (0..rng.gen_range(2..=5)).map(|_| ["D", "O", "H"][rng.gen_range(0..3)].to_string()).collect() } else { vec![] };
+                    SRunSpec { scenario: sc.into(), n: nn, kinds, script, sched }
                 })
                 .collect();
             util::run_parallel(opt, specs, run_one)
         }
         "syncwait" => {
-            let specs: Vec<SRunSpec> = (0..util::get(opt, "runs", 10usize)).map(|k| SRunSpec { scenario: "syncwait".into(), n: k % 5, kinds: vec![], sched: vec![] }).collect();
+            let specs: Vec<SRunSpec> = (0..util::get(opt, "runs", 10usize)).map(|k| SRunSpec { scenario: "syncwait".into(), n: k % 5, kinds: vec![], script: vec![], sched: vec![] }).collect();
             util::run_parallel(opt, specs, run_one)
         }
         _ => 2,
